@@ -135,7 +135,7 @@ let () =
            let t0 = if timing then Unix.gettimeofday () else 0.0 in
            let ((st', m), sp) =
              try step !cfg !st (n_of_hex code) (List.map n_of_hex args) !data
-             with Stack_overflow -> ((!st, RPanic), SAny) in
+             with Stack_overflow -> (Printf.printf "DRIVER-ERROR stack overflow at %s line %d\n" !case !lineno; ((!st, RPanic), SAny)) in
            if timing then begin
              let dt = Unix.gettimeofday () -. t0 in
              if dt > 0.05 then Printf.printf "SLOW %s %d %.3fs :: %s\n" !case !lineno dt (truncate line)
